@@ -44,7 +44,7 @@ def _fire(kind):
     if FAULT["kind"] == kind:
         if FAULT["skip"] <= 0:
             FAULT["kind"] = None
-            raise RuntimeError("user hook: " + kind)
+            raise core.hook_exc(FAULT.get("op"), "user hook: " + kind)
         FAULT["skip"] -= 1
 
 
@@ -154,6 +154,7 @@ def apply_op(nodes, op) -> str:
     k = op[0]
     FAULT["kind"] = None
     FAULT["skip"] = 0
+    FAULT["op"] = op      # the class of the exception a raising hook throws is a function of the op
     try:
         _watchdog(True)
         if k == "P":
